@@ -13,6 +13,7 @@ import (
 	"flag"
 	"fmt"
 	"os"
+	"os/exec"
 	"path/filepath"
 	"regexp"
 	"strings"
@@ -48,6 +49,9 @@ var mutations = map[int][]edit{
 	// 9: Resurrect does not put the credits found before an interruption back
 	// into the watched set (a resumed recovery misses their spends)
 	9: {{"/repo/wallet/recovery.go", "rm.state.AddWatchedOutPoint(&credit.OutPoint, addrs[0])", "_ = addrs", 1}},
+	// 10: one-line equivalent of the seeded change /verif/seeded/C16-1: Resurrect
+	// restores the INTERNAL branch with the EXTERNAL key count
+	10: {{"/repo/wallet/recovery.go", "internalCount := acctProperties.InternalKeyCount", "internalCount := acctProperties.ExternalKeyCount", 1}},
 	// 90: NOT a mutation but a diagnostic: candidate repair for the finding
 	// "retry:address-missed" (extendAddresses updates next index / cache in memory
 	// inside the transaction; here the update is deferred to OnCommit as
@@ -68,6 +72,7 @@ func main() {
 	out := flag.String("out", "", "output directory")
 	mut := flag.Int("mut", 0, "demonstration mutation (0 = none)")
 	batch := flag.Int("batch", 2, "scaled recoveryBatchSize")
+	patchFile := flag.String("patch", "", "unified diff (paths a/.. b/.. relative to /repo) applied to copies of the tree files (demonstration)")
 	flag.Parse()
 	if *out == "" {
 		die("-out required")
@@ -101,6 +106,46 @@ func main() {
 			}
 			content[e.file] = strings.ReplaceAll(s, e.old, e.new)
 			mutated[e.file] = true
+		}
+	}
+	if *patchFile != "" {
+		// apply the diff to copies of the touched files with patch(1)
+		pb, err := os.ReadFile(*patchFile)
+		if err != nil {
+			die("%v", err)
+		}
+		tmp := filepath.Join(*out, "patchtree")
+		os.RemoveAll(tmp)
+		var files []string
+		for _, line := range strings.Split(string(pb), "\n") {
+			if strings.HasPrefix(line, "+++ b/") {
+				files = append(files, strings.TrimSpace(strings.TrimPrefix(line, "+++ b/")))
+			}
+		}
+		if len(files) == 0 {
+			die("no '+++ b/<path>' line in %s", *patchFile)
+		}
+		for _, f := range files {
+			dst := filepath.Join(tmp, f)
+			if err := os.MkdirAll(filepath.Dir(dst), 0o755); err != nil {
+				die("%v", err)
+			}
+			if err := os.WriteFile(dst, []byte(load("/repo/"+f)), 0o644); err != nil {
+				die("%v", err)
+			}
+		}
+		abs, _ := filepath.Abs(*patchFile)
+		cmd := exec.Command("patch", "-p1", "--no-backup-if-mismatch", "-d", tmp, "-i", abs)
+		if o, err := cmd.CombinedOutput(); err != nil {
+			die("patch does not apply to the current tree: %v\n%s", err, o)
+		}
+		for _, f := range files {
+			b, err := os.ReadFile(filepath.Join(tmp, f))
+			if err != nil {
+				die("%v", err)
+			}
+			content["/repo/"+f] = string(b)
+			mutated["/repo/"+f] = true
 		}
 	}
 	const wgo = "/repo/wallet/wallet.go"
